@@ -158,6 +158,7 @@ type hreq struct {
 	Forward    bool     // needs the leader: a follower forwards it with the caller's credentials
 	Irrelevant bool     // method the route does not serve: 401 or 405 both count as refusal
 	LeaderOnly bool     // only sent to a follower when the expected decision is "unauthorized"
+	NoFollower bool     // never sent to a follower
 	Stepdown   bool     // a (wrongly) performed action moves leadership
 }
 
@@ -243,9 +244,9 @@ func httpTable() []hreq {
 		{Name: "request-ro-none", Method: "POST", Path: "/db/request?level=none", CT: "application/json", Body: selBody, Rule: allOf("query", "execute")},
 		{Name: "backup", Method: "GET", Path: "/db/backup", Rule: bk, Forward: true},
 		{Name: "backup-sql", Method: "GET", Path: "/db/backup?fmt=sql", Rule: bk, Forward: true},
-		// (an allowed compressed backup through a follower only ends when the leader's idle
-		// timeout closes the connection, 30 s: C21's subject, skipped here)
-		{Name: "backup-gz", Method: "GET", Path: "/db/backup?compress", Rule: bk, Forward: true, LeaderOnly: true},
+		// (a compressed backup served through a follower only ends when the leader's idle
+		// timeout closes the connection, 30 s: C21's subject; sent to the leader only)
+		{Name: "backup-gz", Method: "GET", Path: "/db/backup?compress", Rule: bk, NoFollower: true},
 		{Name: "backup-tables", Method: "GET", Path: "/db/backup?fmt=sql&tables=secrets", Rule: bk, Forward: true},
 		{Name: "backup-noleader", Method: "GET", Path: "/db/backup?noleader", Rule: bk},
 		{Name: "backup-noleader-gz", Method: "GET", Path: "/db/backup?noleader&compress", Rule: bk},
@@ -735,6 +736,9 @@ func runCase(cd caseDef, dir string, seed int64) (out caseOut) {
 		for _, role := range []string{"leader", "follower"} {
 			if cd.FollowerOpen && role == "follower" && !ht[i].Forward {
 				continue // served by the follower itself, which has no credential store: outside the property
+			}
+			if role == "follower" && ht[i].NoFollower {
+				continue
 			}
 			for _, pr := range cd.presentations() {
 				jobs = append(jobs, job{http: &ht[i], role: role, pr: pr})
